@@ -42,6 +42,9 @@ SUBSCRIPT_EXEMPT = [
     ("flowmark.formats.flowmark_markdown:MarkdownNormalizer._render_code", "0", lambda org: bool(org) and all(_is_children_of_param(o) for o in org),
      "marko's FencedCode / CodeBlock (and CustomFencedCode.__init__) always store exactly one RawText child"),
 ]
+# ... the same site when the shared code renderer is written out in the three render methods that use it
+for _m in ("render_fenced_code", "render_code_block", "render_custom_fenced_code"):
+    SUBSCRIPT_EXEMPT.append((f"flowmark.formats.flowmark_markdown:MarkdownNormalizer.{_m}",) + SUBSCRIPT_EXEMPT[1][1:])
 
 
 def format_scope(ctx: Ctx) -> dict[str, FuncInfo]:
